@@ -92,6 +92,53 @@ func calleeName(fn *ssa.Function) string {
 }
 
 func (fr *Frame) callFunction(b *ssa.BasicBlock, st *State, callee *ssa.Function, args []Val, resT types.Type, pos token.Pos, ins ssa.CallInstruction) Val {
+	res := fr.callFunction1(b, st, callee, args, resT, pos, ins)
+	fr.callGhosts(b, st, calleeName(callee), args, res)
+	return res
+}
+
+// callGhosts: `ghost at <callee> name: expr` - after a matching call the value of expr is recorded in the ghost
+// variable; on paths without such a call the variable keeps its unconstrained entry value, so a post-condition
+// over ghost(name) can only be proved when the call happened
+func (fr *Frame) callGhosts(b *ssa.BasicBlock, st *State, name string, args []Val, res Val) {
+	if fr.contract == nil || fr.inlined {
+		return
+	}
+	for _, g := range fr.contract.Ghosts {
+		if !strings.Contains(name, g.Callee) {
+			continue
+		}
+		vars := map[string]Val{}
+		for kk, v := range fr.params {
+			vars[kk] = v
+		}
+		for i, a := range args {
+			vars[fmt.Sprintf("$%d", i)] = a
+		}
+		if res.IsAg {
+			for i, a := range res.Agg {
+				vars[fmt.Sprintf("$r%d", i)] = a
+			}
+		} else {
+			vars["$r"] = res
+		}
+		env := &SpecEnv{fr: fr, vars: vars, now: st, old: fr.pre, pkg: fr.fn.Pkg.Pkg, header: fr.innermostHeader(b)}
+		v := fr.evalSpec(g.Cl.E, env)
+		hv := "$ghost:" + g.Cl.Label
+		fr.fc.regVar(hv, "Int")
+		fr.fc.logWrite(hv, "")
+		fr.checkLoopWrite(hv, "")
+		t := fr.scalar(v)
+		if v.Typ != nil {
+			if bt, ok := v.Typ.Underlying().(*types.Basic); ok && bt.Kind() == types.Bool {
+				t = sIte(t, "1", "0")
+			}
+		}
+		st.vars[hv] = t
+	}
+}
+
+func (fr *Frame) callFunction1(b *ssa.BasicBlock, st *State, callee *ssa.Function, args []Val, resT types.Type, pos token.Pos, ins ssa.CallInstruction) Val {
 	fc := fr.fc
 	name := calleeName(callee)
 	fr.callAsserts(b, st, name, args, pos)
